@@ -28,6 +28,7 @@ type opIn struct {
 	Hdr    *hdrIn     `json:"hdr,omitempty"`
 	Misb   *misbIn    `json:"misb,omitempty"`
 	Sub    *subIn     `json:"sub,omitempty"`
+	Upg    *upgIn     `json:"upg,omitempty"`
 	Probes [][]string `json:"probes"`
 	Tag    string     `json:"tag,omitempty"`
 }
